@@ -291,3 +291,83 @@ class BottomUpForward(Contract):
                            V.b_and(*[V.i_eq(x, y) for x, y in zip(res[b].shape, inst[b].shape)]) if True else True))
                 cl.append(("PL/sample%d/decoded-values" % b, Forall(list(inst[b].shape), lambda i_, n_, k_, b=b, rr_=rr_, ir_=ir_: V.f_same(rr_([i_, n_, k_]), V.f_div(V.f_div(ir_([i_, n_, k_]), input_scale), er([b]))))))
         return cl
+
+
+# ------------------------------------------------------- the scorer's per-sample wiring
+@contract
+class ScorePafLinesBatchWiring(Contract):
+    """score_paf_lines_batch with its three callees (get_connection_candidates, get_paf_lines,
+    score_paf_lines) replaced by recording ghosts: what is decided is the wiring -- each sample's
+    PAFs / peaks / channel indices go to that sample's calls, the PAF stride and the number of
+    line points are passed through, and the edge-length limit handed to score_paf_lines is
+    max_edge_length_ratio x the image extent (max(height, width) x stride, at least)."""
+
+    target = PG + "score_paf_lines_batch"
+    props = ("C03",)
+    level = "property"
+    functional = False
+    pure = False
+    no_crosscheck = True
+    no_replay = True
+    cases = ("B1", "B2")
+    dims = ()
+    bounded = ("score_paf_lines_batch: batch size 1..2 (python loop over samples); PAF size, edge count, stride, ratio symbolic",)
+
+    def inputs(self, c, case):
+        B = int(case[1:])
+        H, W, E = c.dim("H", lo=1), c.dim("W", lo=1), c.dim("E", lo=1)
+        ratio = c.real("max_edge_length_ratio")
+        c.assume(V.f_lt(0.0, ratio))
+        return dict(pafs=c.tensor("pafs", [B, H, W, V.i_mul(2, E)], FLOAT, nan_ok=False), B=B, stride=c.int("pafs_stride", lo=1), ratio=ratio, n_points=c.int("n_line_points", lo=1),
+                    weight=c.real("dist_penalty_weight"))
+
+    def run(self, interp, a):
+        from pyvc.lib_torch import NestedTensor
+
+        self._calls = {"cand": [], "lines": [], "score": []}
+        B = a["B"]
+        peaks = NestedTensor(["peaks%d" % b for b in range(B)])
+        chans = NestedTensor(["chan%d" % b for b in range(B)])
+
+        def cand(chan, skel, n_nodes):
+            self._calls["cand"].append((chan, skel, n_nodes))
+            k = len(self._calls["cand"]) - 1
+            return ("edge_inds%d" % k, "edge_peak_inds%d" % k)
+
+        def lines(pafs_sample, peaks_sample, epi, ei, n_line_points, pafs_stride):
+            self._calls["lines"].append((pafs_sample, peaks_sample, epi, ei, n_line_points, pafs_stride))
+            return "paf_lines%d" % (len(self._calls["lines"]) - 1)
+
+        def score(paf_lines, peaks_sample, epi, max_edge_length, dist_penalty_weight=1.0):
+            self._calls["score"].append((paf_lines, peaks_sample, epi, max_edge_length, dist_penalty_weight))
+            return T.from_flat([0], [], FLOAT)
+
+        interp.overrides = {PG + "get_connection_candidates": cand, PG + "get_paf_lines": lines, PG + "score_paf_lines": score}
+        try:
+            f = interp.resolve_dotted(PG + "score_paf_lines_batch")
+            return interp.call(f, [a["pafs"], peaks, chans, "skeleton_edges", a["n_points"], a["stride"], a["ratio"], a["weight"], 3], {})
+        finally:
+            interp.overrides = {}
+
+    def ensures(self, c, result, pafs, B, stride, ratio, n_points, weight):
+        calls = self._calls
+        cl = [("PL/one-call-of-each-stage-per-sample", all(len(calls[k]) == B for k in calls))]
+        if not cl[0][1]:
+            return cl
+        H, W = pafs.shape[1], pafs.shape[2]
+        pr = pafs.reader()
+        for b in range(B):
+            chan, skel, n_nodes = calls["cand"][b]
+            ps, pk, epi, ei, npts, st = calls["lines"][b]
+            pl, pk2, epi2, mel, w = calls["score"][b]
+            cl.append(("PL/sample%d/each-stage-gets-this-sample's-peaks-channels-and-candidates" % b,
+                       chan == "chan%d" % b and skel == "skeleton_edges" and pk == "peaks%d" % b and pk2 == "peaks%d" % b and epi == "edge_peak_inds%d" % b and epi2 == "edge_peak_inds%d" % b
+                       and ei == "edge_inds%d" % b and pl == "paf_lines%d" % b))
+            ok_p = isinstance(ps, STensor) and ps.rank == 3
+            cl.append(("PL/sample%d/PAFs-of-this-sample-stride-and-line-points-passed-through" % b, ok_p and V.b_and(V.i_eq(npts, n_points), V.i_eq(st, stride), V.f_same(w, weight))))
+            if ok_p:
+                sr = ps.reader()
+                cl.append(("PL/sample%d/PAF-values" % b, Forall([H, W, pafs.shape[3]], lambda i, j, ch, b=b, sr=sr: V.f_same(sr([i, j, ch]), pr([b, i, j, ch])))))
+            ext = V.f_mul(V.f_mul(ratio, T.cast_scalar(V.i_max(H, W), FLOAT)), T.cast_scalar(stride, FLOAT))
+            cl.append(("PL/sample%d/edge-length-limit-is-at-least-ratio-x-max(height,width)-x-stride" % b, V.f_le(ext, mel)))
+        return cl
